@@ -32,6 +32,7 @@ def _engine_for(pid: str):
     table = {
         "C01": "check_interval", "C05": "check_interval", "C13": "check_interval", "C14": "check_interval",
         "C19": "check_generic",
+        "C09": "check_platform",
     }
     name = table.get(pid)
     return importlib.import_module("harness." + name) if name else None
